@@ -137,9 +137,31 @@ def body_tables(rep, case):
                 raise Violation(f"C19/port-constant/{name}", {"constant": name}, want, got)
 
 
+def body_after_traffic(rep, case):
+    """The published tables are constants: they must still be right after a bridge heard every device family on
+    non-default ports and after API objects were created (a table aliased by some bookkeeping dict would drift)."""
+    from ..fake import net, udptx
+    from .c07 import valid_fields
+
+    async def run():
+        rig = udptx.Rig(2)
+        await rig.start()
+        try:
+            for i, code in enumerate(refb.MODELS):
+                await rig.send(rig.ports[i % 2], refb.encode(valid_fields(code, f"{i + 1:06x}", case.get("seed", 0))))
+            await rig.barrier()
+            return len(rig.callbacks)
+        finally:
+            await rig.stop()
+    n = net.run(run(), timeout=60)
+    rep.tick("tables-after-traffic", key=("traffic", case.get("seed", 0)), nontrivial=True, sample={"broadcasts_delivered": n})
+    body_tables(rep, case)
+
+
 def subchecks(tier):
     n = 500 if tier == "thorough" else 50
-    subs = [Sub("tables", body_tables, cases=lambda: [{}], shards=1, exhaustive=True)]
+    subs = [Sub("tables", body_tables, cases=lambda: [{}], shards=1, exhaustive=True),
+            Sub("tables-after-traffic", body_after_traffic, cases=lambda: [{"seed": i} for i in range(3)], shards=1, exhaustive=True)]
     names = sorted(set(type_names()) | {v[0] for v in refb.MODELS.values()})
     for t in names:
         for c in CLASS_CATEGORY:
